@@ -1,5 +1,5 @@
 (* C05 — Bitcoin/testnet3: every output script gets the reference type and address. Pinned statements only: each theorem is closed by `exact` of a lemma proved in theories/. *)
-From RBP Require Import Bytes Hashes Codec Base58 Bech32 Segwit Utf8 ScriptCustom CustomTop ScriptCustomP ScriptBtc ScriptBtcP ScriptBtcSpec Wire Block Index Model OpReturnP.
+From RBP Require Import Bytes Hashes Codec Base58 Bech32 Segwit Utf8 ScriptCustom CustomTop ScriptCustomP ScriptBtc ScriptBtcP ScriptBtcSpec Wire Block Index Model OpReturnP MultisigP.
 From RBP Require Drive Merkle Utxo Stats OutProto Reader Published Misc.
 
 Theorem C05_p2pkh_shape :
@@ -106,6 +106,14 @@ Theorem C05_hash160_output_is_bytes :
   forall msg : list N, wfb (hash160 msg) = true.
 Proof. exact hash160_wfb. Qed.
 
+Theorem C05_multisig_shape_accepted :
+  forall (m : N) (keys : list (pform * bytes)), Forall (fun fk : pform * bytes => pfits (fst fk) (snd fk)) keys -> 1 <= m -> m <= N.of_nat (length keys) -> N.of_nat (length keys) <= 16 -> is_multisig (ms_script m keys) = true.
+Proof. exact is_multisig_of_shape. Qed.
+
+Theorem C05_multisig_verdict :
+  forall (net : net) (m : N) (keys : list (pform * bytes)), Forall (fun fk : pform * bytes => pfits (fst fk) (snd fk)) keys -> 1 <= m -> m <= N.of_nat (length keys) -> N.of_nat (length keys) <= 16 -> eval_btc net (ms_script m keys) = (BMultiSig, None).
+Proof. exact multisig_verdict. Qed.
+
 Print Assumptions C05_p2pkh_shape.
 Print Assumptions C05_p2sh_shape.
 Print Assumptions C05_p2pk_shape.
@@ -132,3 +140,5 @@ Print Assumptions C05_segwit_checksum_valid.
 Print Assumptions C05_b58_digits_roundtrip.
 Print Assumptions C05_sha256_output_is_bytes.
 Print Assumptions C05_hash160_output_is_bytes.
+Print Assumptions C05_multisig_shape_accepted.
+Print Assumptions C05_multisig_verdict.
